@@ -428,6 +428,8 @@ class SimSSHServer:
         eol = text_bytes(p.get('eol', '\r\n'))
         for line in p.get('pre', []):
             yield ('send', 'pre', text_bytes(line) + eol)
+            if p.get('pre_gap_us'):
+                yield ('sleep', int(p['pre_gap_us']))      # a tarpit: one line at a time, each just inside the reader's timeout
         d = int(p.get('banner_delay_us', 0))
         if d:
             yield ('sleep', d)
